@@ -15,6 +15,7 @@ src: linked_list.c
 tier: B
 backend: cadical
 unwind: 8
+unwind_thorough: 12
 bound: list length <= 4, any key
 funcs: spif_linked_list_append
 */
@@ -25,6 +26,7 @@ src: linked_list.c
 tier: B
 backend: cadical
 unwind: 8
+unwind_thorough: 12
 bound: list length <= 4, any key
 funcs: spif_linked_list_prepend
 */
@@ -35,6 +37,7 @@ src: linked_list.c
 tier: B
 backend: cadical
 unwind: 8
+unwind_thorough: 12
 bound: list length 1..4; every index value from -2^31 up to len+2 (at most 2 placeholders of growth) except idx == -len-1; any key
 funcs: spif_linked_list_insert_at
 */
@@ -45,6 +48,7 @@ src: linked_list.c
 tier: B
 backend: cadical
 unwind: 8
+unwind_thorough: 12
 bound: the empty list; every index value <= 0 except -1; any key
 funcs: spif_linked_list_insert_at
 */
@@ -55,6 +59,7 @@ src: linked_list.c
 tier: B
 backend: cadical
 unwind: 8
+unwind_thorough: 12
 bound: the empty list; index 1..2 (placeholders must be created); any key
 funcs: spif_linked_list_insert_at
 */
@@ -65,6 +70,7 @@ src: linked_list.c
 tier: B
 backend: cadical
 unwind: 8
+unwind_thorough: 12
 bound: list length <= 4; idx == -len-1 (the position that normalises to exactly -1); any key
 funcs: spif_linked_list_insert_at
 */
@@ -75,6 +81,7 @@ src: linked_list.c
 tier: B
 backend: cadical
 unwind: 8
+unwind_thorough: 12
 bound: list length <= 4, all 2^32 index values
 funcs: spif_linked_list_remove_at
 */
@@ -85,6 +92,7 @@ src: linked_list.c
 tier: B
 backend: cadical
 unwind: 8
+unwind_thorough: 12
 bound: list length <= 4, all 2^32 index values
 funcs: spif_linked_list_get
 */
@@ -95,6 +103,7 @@ src: linked_list.c
 tier: B
 backend: cadical
 unwind: 8
+unwind_thorough: 12
 bound: list length <= 4, all key values incl. duplicates and placeholders
 funcs: spif_linked_list_remove
 */
@@ -105,6 +114,7 @@ src: linked_list.c
 tier: B
 backend: cadical
 unwind: 8
+unwind_thorough: 12
 bound: list length <= 4, all key values incl. duplicates and placeholders
 funcs: spif_linked_list_index, spif_linked_list_find, spif_linked_list_contains
 */
@@ -115,6 +125,7 @@ src: linked_list.c
 tier: B
 backend: cadical
 unwind: 8
+unwind_thorough: 12
 bound: list length 1..4
 funcs: spif_linked_list_reverse
 */
@@ -125,6 +136,7 @@ src: linked_list.c
 tier: B
 backend: cadical
 unwind: 8
+unwind_thorough: 12
 bound: the empty list
 funcs: spif_linked_list_reverse
 */
@@ -135,6 +147,7 @@ src: linked_list.c
 tier: B
 backend: cadical
 unwind: 8
+unwind_thorough: 12
 bound: list length <= 4
 funcs: spif_linked_list_to_array
 */
@@ -145,6 +158,7 @@ src: linked_list.c, obj.c
 tier: B
 backend: cadical
 unwind: 8
+unwind_thorough: 12
 bound: list length <= 4
 funcs: spif_linked_list_iterator, spif_linked_list_iterator_new, spif_linked_list_iterator_init, spif_linked_list_iterator_has_next, spif_linked_list_iterator_next, spif_linked_list_iterator_del
 */
